@@ -9,7 +9,12 @@ if st:
     sys.exit('refusing: /repo has local changes')
 head = subprocess.run(['git', '-C', '/repo', 'rev-parse', 'HEAD'], capture_output=True, text=True).stdout.strip()
 p = Program('/repo', normalise=False)
-out = {'reference_commit': head, 'functions': sorted(p.functions)}
+consts = []
+for m in p.modules.values():
+    consts += ['%s.%s' % (m.name, k) for k in m.consts]
+for c in p.classes.values():
+    consts += ['%s.%s' % (c.qual, k) for k in c.attrs]
+out = {'reference_commit': head, 'functions': sorted(p.functions), 'constants': sorted(set(consts))}
 dst = os.path.join(os.path.dirname(os.path.dirname(os.path.abspath(__file__))), 'sa', 'tables', 'known_functions.json')
 json.dump(out, open(dst, 'w'), indent=0)
 print(len(out['functions']), 'functions ->', dst)
